@@ -246,8 +246,23 @@ def case_text(ref: Ref):
     return t
 
 
+_INIT_CACHE = {}
+
+
 def initial_state(ref: Ref, variant: int, xlen: int, flen: int):
     """Pairwise distinct contents for the full register files (+ mentioned j_ registers)."""
+    mentioned = {(k, s) for k, s, d, w in ref.moves} | {(k, d) for k, s, d, w in ref.moves} | set(ref.free)
+    extra = tuple(sorted(kn for kn in mentioned if rm.phys(*kn)[0] in ("xj", "fj")))
+    wide = frozenset(rm.phys(k, s) for k, s, d, w in ref.moves if k == "float" and w != 32)
+    ck = (variant, xlen, flen, extra, wide)
+    if ck not in _INIT_CACHE:
+        if len(_INIT_CACHE) > 4000:
+            _INIT_CACHE.clear()
+        _INIT_CACHE[ck] = _initial_state(ref, variant, xlen, flen)
+    return _INIT_CACHE[ck]
+
+
+def _initial_state(ref: Ref, variant: int, xlen: int, flen: int):
     regs = [("int", n) for n in rm.INT_ABI[1:]] + [("float", n) for n in rm.FLOAT_ABI]
     mentioned = {(k, s) for k, s, d, w in ref.moves} | {(k, d) for k, s, d, w in ref.moves} | set(ref.free)
     regs += sorted(kn for kn in mentioned if rm.phys(*kn)[0] in ("xj", "fj"))
@@ -275,7 +290,7 @@ def initial_state(ref: Ref, variant: int, xlen: int, flen: int):
 
 
 class CaseResult:
-    __slots__ = ("status", "detail", "problems", "ref", "ops", "mnemonics", "module_text", "fail_msg", "wrong_regs", "clobbered", "final_of")
+    __slots__ = ("status", "detail", "problems", "ref", "ops", "mnemonics", "module_text", "fail_msg", "wrong_regs", "clobbered", "final_of", "init_of", "module", "state_problem")
 
     def __init__(self, ref):
         self.status = None      # "lowered" | "failed" | "rejected" | "crash"
@@ -289,10 +304,16 @@ class CaseResult:
         self.wrong_regs = set()
         self.clobbered = set()
         self.final_of = {}
+        self.init_of = {}
+        self.module = None
+        self.state_problem = {}
 
 
-def run_case(moves, free, counters=None) -> CaseResult:
+def run_case(moves, free, counters=None, want_text=False) -> CaseResult:
     res = _run_case_raw(moves, free, counters)
+    if res.module is not None and (res.problems or want_text):
+        res.module_text = str(res.module)        # printing costs as much as the pass itself: only when needed
+    res.module = None
     if res.problems:
         rekey_zero_family(res.ref, res)
         seen, out = set(), []
@@ -356,7 +377,7 @@ def _run_case_raw(moves, free, counters=None) -> CaseResult:
     except Exception as e:  # noqa: BLE001
         res.problems.append(("verify-after-lowering", f"module does not verify after the pass: {str(e)[:160]}"))
     ops = list(mod.body.block.ops)
-    res.module_text = str(mod)
+    res.module = mod
     if ops[0] is not deff or use not in ops or late not in ops or ops.index(use) != len(ops) - 2 or ops[-1] is not late:
         res.problems.append(("frame-ops-disturbed", "definition / user ops were moved, erased or replaced"))
         return res
@@ -473,11 +494,14 @@ def _run_case_raw(moves, free, counters=None) -> CaseResult:
                 res.wrong_regs = wrong_regs
                 res.clobbered = set(clobbered)
                 res.final_of = {p: final.get(p) for p in clobbered}
+                res.init_of = init
                 for kind in ("int", "float"):
                     wk = {p for p in wrong_regs if ref.kind_of(p) == kind}
                     ck = {p for p in clobbered if ref.kind_of(p) == kind}
                     if wk or ck:
-                        res.problems.append(classify_kind(ref, kind, init, final, wk, ck, res, tag))
+                        entry = classify_kind(ref, kind, init, final, wk, ck, res, tag)
+                        res.problems.append(entry)
+                        res.state_problem[kind] = (entry, wk, ck)
             if res.problems:
                 break
         if res.problems:
@@ -556,6 +580,15 @@ def rekey_zero_family(ref: Ref, res):
         return
     repeated = len(zero_dst) >= 2                 # two result slots share the key `zero` in the pass's index
     through = X0 in ref.succ                      # x0 also feeds a real destination: x0 looks like an inner node
+    # registers on a path from x0 back to a source of a move into x0 form a pseudo cycle through x0
+    pseudo = set()
+    for k, s, d, w in real:
+        path, cur = [], rm.phys(k, s)
+        while cur in ref.pred and cur not in path:
+            path.append(cur)
+            cur = ref.pred[cur][0]
+        if cur == X0:
+            pseudo.update(path)
     out = []
     for key, summ in res.problems:
         new = None
@@ -565,23 +598,21 @@ def rekey_zero_family(ref: Ref, res):
             new = "hang"
         elif repeated and key == "stale-read-in-emitted-code":
             new = "stale-read"
-        elif through and key == "wrong-destination-value":
-            # registers between x0 and a source of a move into x0 form a pseudo cycle through x0
-            pseudo = set()
-            for k, s, d, w in real:
-                path, cur = [], rm.phys(k, s)
-                while cur in ref.pred and cur not in path:
-                    path.append(cur)
-                    cur = ref.pred[cur][0]
-                if cur == X0:
-                    pseudo.update(path)
-            if res.wrong_regs and res.wrong_regs <= pseudo:
-                new = "wrong-destination"
-        elif through and key == "clobbered-register" and not ref.has_free("int") and len(res.clobbered) == 1:
-            # the pseudo cycle through x0 is "broken" with a tree root as scratch (see K_ROOT): it receives x0's value
-            (p,) = res.clobbered
-            if p in ref.read_only_sources and p != X0 and res.final_of.get(p) == 0:
-                new = "tree-root-taken-as-scratch"
+        elif through and pseudo and "int" in res.state_problem and (key, summ) == res.state_problem["int"][0] \
+                and key in ("wrong-destination-value", "clobbered-register", "wrong-destination-value-and-clobbered-register"):
+            # x0 looks like an inner node of a cycle: the registers between x0 and a source of a move into x0 (the
+            # pseudo cycle) may end up wrong, and - without designated int free register - a tree root is taken as
+            # scratch to "break" the pseudo cycle (see K_ROOT): it receives the saved value of a pseudo-cycle member
+            # (or x0's 0).  Only the int register file is concerned.
+            _entry, wrong, clob = res.state_problem["int"]
+            ok = wrong <= pseudo and len(clob) <= 1
+            for p in clob:
+                if not (not ref.has_free("int") and p in ref.read_only_sources and p != X0
+                        and res.final_of.get(p) in ({0} | {res.init_of.get(q) for q in pseudo})):
+                    ok = False
+            if ok:
+                new = ("wrong-destination" if wrong else "") + ("+" if wrong and clob else "") + \
+                      ("tree-root-taken-as-scratch" if clob else "")
         out.append((K_ZERO + new, summ) if new else (key, summ))
     res.problems = out
 
@@ -675,7 +706,7 @@ TEMPLATES = {
 }
 
 
-def gen_directed(kinds=("int", "float")):
+def gen_directed(kinds=("int", "float"), free_sets=None):
     for name, tmpl in sorted(TEMPLATES.items()):
         for kind in kinds:
             if "z" in "".join(tmpl) and kind == "float":
@@ -688,9 +719,22 @@ def gen_directed(kinds=("int", "float")):
             perms = itertools.permutations(base) if len(base) <= 5 else \
                 (random.Random(len(base) * 31 + j).sample(base, len(base)) for j in range(120))
             for order in perms:
-                for free in FREE_SETS:
+                for free in (free_sets or FREE_SETS):
                     for w in (32, 64):
                         yield [(k, s, d, w) for k, s, d in order], free
+
+
+ALIAS = {"s1": "x9", "s2": "x18", "fs1": "f9", "fs2": "f18"}
+
+
+def gen_alias():
+    """Observation only (not judged): the same physical register named s1 as a source and x9 as a destination."""
+    for kind in ("int", "float"):
+        for g in _kind_graphs(kind, 2):
+            if not g:
+                continue
+            for free in (FREE_SETS[0], FREE_SETS[3]):
+                yield [(kind, s, ALIAS[d], 32) for s, d in g], free
 
 
 POOL = {"int": ["s1", "s2", "s3", "s4", "s5", "s6", "s7", "s8", "a0", "a1", "a2", "a3", "t0", "t1", "t2", "ra",
@@ -754,7 +798,9 @@ def _cases_for(job):
     if cls == "M":
         return gen_mixed(job["n"], [tuple(p) for p in job["width_pairs"]])
     if cls == "D":
-        return gen_directed()
+        return gen_directed(free_sets=[FREE_SETS[i] for i in job["free_sets"]] if job.get("free_sets") else None)
+    if cls == "A":
+        return gen_alias()
     if cls == "R":
         rng = random.Random(job["seed"])
         return (gen_random(rng) for _ in range(job["count"]))
@@ -771,19 +817,21 @@ def plan(tier, seed):
             jobs.append(dict(job, shard=i, nshards=n))
 
     if tier == "quick":
-        shards({"class": "E", "kind": "int", "n": 3}, 4)
-        shards({"class": "E", "kind": "float", "n": 3}, 4)
+        shards({"class": "E", "kind": "int", "n": 3}, 3)
+        shards({"class": "E", "kind": "float", "n": 3}, 3)
         shards({"class": "Z", "n": 2}, 1)
-        shards({"class": "M", "n": 2, "width_pairs": [["32", "32"], ["64", "64"], ["32", "alt"]]}, 8)
-        shards({"class": "D"}, 10)
-        for r in range(16):
-            jobs.append({"class": "R", "seed": seed * 100003 + r, "count": 700, "shard": 0, "nshards": 1})
+        shards({"class": "M", "n": 2, "width_pairs": [["32", "32"], ["64", "alt"]]}, 5)
+        shards({"class": "D", "free_sets": [0, 3]}, 5)
+        shards({"class": "A"}, 1)
+        for r in range(7):
+            jobs.append({"class": "R", "seed": seed * 100003 + r, "count": 900, "shard": 0, "nshards": 1})
     else:
         shards({"class": "E", "kind": "int", "n": 4}, 40)
         shards({"class": "E", "kind": "float", "n": 4}, 40)
         shards({"class": "Z", "n": 3}, 16)
         shards({"class": "M", "n": 2, "width_pairs": [[a, b] for a in WIDTH_MODES for b in WIDTH_MODES]}, 24)
         shards({"class": "D"}, 10)
+        shards({"class": "A"}, 1)
         for r in range(64):
             jobs.append({"class": "R", "seed": seed * 100003 + 1000 + r, "count": 4000, "shard": 0, "nshards": 1})
     return jobs
@@ -805,6 +853,12 @@ def work(job):
     sh, nsh = job.get("shard", 0), job.get("nshards", 1)
     for idx, (moves, free) in enumerate(_cases_for(job)):
         if idx % nsh != sh:
+            continue
+        if cls == "A":
+            # not judged (see ASSUMPTIONS): aliases are distinct attributes to the pass; counted as an observation
+            r = run_case(moves, free, {})
+            bump("alias_cases_observed_not_judged")
+            bump("alias_cases_" + ("wrong_or_crashed" if r.problems else r.status))
             continue
         res["evaluations"] += 1
         bump("cases_class_" + cls)
@@ -852,8 +906,9 @@ def work(job):
                 if odd:
                     bump("correct_with_unsupported_width_on_unemitted_move")
                 if len(res["samples"]) < 2 and ref.cycles:
+                    r2 = run_case(moves, free, {}, want_text=True)
                     res["samples"].append({"moves": [list(m) for m in ref.moves], "free": [list(f) for f in ref.free],
-                                           "lowered_to": r.module_text.splitlines()[2:-3]})
+                                           "lowered_to": [l.strip() for l in r2.module_text.splitlines()[2:-3]]})
         for key, summ in r.problems:
             bump("violating_cases")
             bump("violating:" + key)
